@@ -49,7 +49,10 @@ DiffFile(apis, f, run) ==
 \* each, with verb, URI and the handler's full name (the Size column belongs to C03)
 Concat(ss) == LET RECURSIVE C(_) C(k) == IF k > Len(ss) THEN <<>> ELSE ss[k] \o C(k + 1) IN C(1)
 DiffCsv(o, fs, r) ==
-  LET exp == Concat([i \in DOMAIN fs |-> Expected(fs[i])])
+  LET all == Concat([i \in DOMAIN fs |-> Expected(fs[i])])
+      \* with `-a <prefix>` the table lists the handlers whose URI begins with the prefix (the API list itself stays whole)
+      pre(u) == o.agg = "" \/ (Len(u) >= Len(o.agg) /\ SubSeq(u, 1, Len(o.agg)) = o.agg)
+      exp == SelectSeq(all, LAMBDA e : pre(e.uri))
       want == [i \in DOMAIN exp |-> [verb |-> exp[i].verb, uri |-> exp[i].uri,
                                       caller |-> exp[i].pkg \o "." \o exp[i].cls \o "." \o exp[i].method]]
   IN  IF ~o.csvOk THEN {Item("C12", "csv-missing-or-malformed", "run " \o ToString(r), {})}
